@@ -155,6 +155,10 @@ impl EWorld {
             b"/".to_vec(),               // 17
             b"..data".to_vec(),          // 18 a legal single component that merely begins with two dots
             b"...".to_vec(),             // 19 likewise
+            b"escdir/".to_vec(),         // 20 a symlink to an outside directory with a trailing separator (resolves the link)
+            b"escdir/.".to_vec(),        // 21
+            b"d/".to_vec(),              // 22 an inside directory with a trailing separator
+            b"new//".to_vec(),           // 23 a free name with trailing separators
         ];
         let bad_lookup: Vec<bool> = names.iter().map(|n| n.contains(&b'/')).collect();
         let bad_mutate: Vec<bool> = names.iter().map(|n| n.contains(&b'/') || n == b"." || n == b"..").collect();
@@ -577,7 +581,7 @@ pub fn alphabet(nnames: u8) -> (Vec<EOp>, Vec<EOp>) {
     let setup: Vec<EOp> = all
         .iter()
         .filter(|o| match o {
-            EOp::Lookup(p, n) => *p <= 1 && [0u8, 1, 5, 10, 11, 12, 13, 14].contains(n),
+            EOp::Lookup(p, n) => *p <= 1 && [0u8, 1, 5, 10, 11, 12, 13, 14, 20, 21].contains(n),
             EOp::Symlink(p, n, _) => *p == 0 && *n == N_NEW,
             EOp::Mkdir(p, n) => *p == 0 && *n == N_NEW,
             EOp::Rename(p, n, p2, n2) => (*p == 1 && *n == 2 && *p2 == 0 && *n2 == N_NEW) || (*p == 0 && *n == 1 && *p2 == 0 && *n2 == N_NEW),
@@ -853,7 +857,7 @@ pub fn c06(args: &Args) -> Report {
     let mut rep = args.report();
     let thorough = args.thorough();
     let cfgs = configs(thorough);
-    let (all, setup) = alphabet(20);
+    let (all, setup) = alphabet(24);
     let mut idx = 0u64;
     let mut run = ERun { rep: &mut rep, cl: Client::new() };
     gate(&mut run, &mut idx);
